@@ -46,11 +46,15 @@ impl Scheduler {
             match signal {
                 Signal::Task(task) => {
                     let ctx = &task.create_context();
-                    task.exec(ctx).unwrap_or_else(|err| {
-                        eprintln!("error: {err}");
-                        task.set_err(&err.into());
-                        let _ = ctx.emit_error();
-                    });
+                    // a task that an action finished while it was still queued has nothing
+                    // left to do; executing it would only turn its final state into an error
+                    if !task.state().is_completed() {
+                        task.exec(ctx).unwrap_or_else(|err| {
+                            eprintln!("error: {err}");
+                            task.set_err(&err.into());
+                            let _ = ctx.emit_error();
+                        });
+                    }
                 }
                 Signal::Terminal => {
                     *self.closed.lock().unwrap() = true;
